@@ -124,7 +124,11 @@ def main(argv=None):
     try:
         drv = ModelDriver()
     except Exception as e:  # noqa: BLE001
-        broken_thms.append(f'driver not startable: {e}')
+        if ok:
+            # the build succeeded (or was skipped) but the executable cannot be started: infrastructure, not a verdict (exit 2)
+            print(f'HARNESS-ERROR {prop}: model driver not startable: {e}', file=sys.stderr)
+        else:
+            broken_thms.append(f'driver not startable: {e}')
     rng = random.Random(seed * 1000003 + (1 if tier == 'thorough' else 0))
     cases = []
     corpus_dir = ROOT / 'corpus' / prop
